@@ -286,13 +286,13 @@ def spec2_matches(impl, want) -> bool:
     return sorted(list(x) for x in {tuple(r) for r in impl[1]}) == want
 
 
-def gen_case2(rng):
+def gen_case2(rng, allow_next=False):
     vals = list(range(0, 4))
     # skeleton without next_rule, at least one refinement; prefer refinement-in-refinement
     for _ in range(50):
         forest = random_forest(rng, rng.randint(1, 5), 3)
         prog = fill(rng, forest, [0], vals, notag=0.0)
-        if "N" in sig_of(prog):
+        if "N" in sig_of(prog) and not allow_next:
             continue
         # candidates for J: refinement branches whose own block has no alternative
         cands = []
@@ -625,6 +625,9 @@ def run(tier: str, seed: int, replay=None) -> int:
         "hand-written models Eql/RuleBuild.v (heap surgery of rule.py, Conclusion.__post_init__, _parent_ setter, __enter__) and "
         "Eql/RuleEval.v (ExceptIf/Alternative/Next, update_conclusion, descriptor), tied by differential execution through the public API",
         "harness/c08.py: case builder (real with-blocks), outcome canonicaliser, Gallina printers",
+        "source pins pins/rules.json (set pins/sets/rules.json, 42 methods of rule.py, conclusion_selector.py, conclusion.py, symbolic.py, "
+        "cache_data.py, entity.py, rxnode.py that the hand models mirror): an edit of a pinned method reopens the correspondence obligation; "
+        "property setters (SymbolicExpression._parent_, RWXNode.parent) cannot be addressed by the pin tool, only their getters are pinned",
     ]
     rep.assume = [
         "two-variable programs are NOT covered by the Coq model or the theorems: they are compared implementation vs Spec (rdr over the elements (c.k, c.parent.a)); "
@@ -645,6 +648,8 @@ def run(tier: str, seed: int, replay=None) -> int:
     ok_spec, log = core.coq_make(["Base/Sx.vo", "Eql/RuleSpec.vo"])
     rep.oblige("build:spec", ok_spec, "" if ok_spec else core.first_error(log))
     model_ok = core.standard_proof_steps(rep, PROP, ["Props/C08.vo", "Eql/RuleSx.vo"])
+    from translator import pins
+    pins.oblige(rep, str(core.REPO), "rules", "the rule construction / evaluation models (Eql/RuleBuild.v, Eql/RuleEval.v)")
     if not ok_spec:
         rep.note("the Spec itself does not build; nothing can be compared")
         return rep.finish()
